@@ -357,7 +357,7 @@ def rule_lean(form_line):
 
 VEX_REG_CLASSES = {"rvm": (0x72, 0x75), "rm": (0x68, 0x6B), "rvmi": (0x7A, 0x7C), "rmi": (0x6F, 0x71),
                    # legacy space: ExtRm, ExtRm_P, X86Rm, X86Rm_NoSize ([reg, rm]); X86Mr, X86Mr_NoSize ([rm, reg]); ExtRmi, ExtRmi_P ([reg, rm, imm8])
-                   "lrm": (0x4A, 0x4D, 0x14, 0x16, 0x21, 0x56), "lmr": (0x17, 0x18, 0x56), "lrmi": (0x52, 0x53), "lop": (0x01,),
+                   "lrm": (0x4A, 0x4D, 0x14, 0x16, 0x21, 0x56, 0x2C), "lmr": (0x17, 0x18, 0x56, 0x2C), "lrmi": (0x52, 0x53), "lop": (0x01,),
                    # X86Arith, X86Test, register-register: the class emits the [rm, reg] form; 8-bit operands in both kinds (gpb, gpbhi)
                    "larith": (0x19, 0x3D),
                    # X86Rot: shift / rotate a register by an imm8 ([rm, imm8] with an opcode-extension digit), all operand sizes
@@ -402,6 +402,8 @@ def class_rows_lean(kept, rows, chunk=96):
                     continue
             elif roles != SHAPE_ROLES[shape]:
                 continue
+            if int(r[1]) == 0x2C and shape in ("lrm", "lmr") and not any(o["reg"] in ("creg", "dreg") for o in f["operands"]):
+                continue      # X86Mov: only the control / debug register moves go through the generic [reg, rm] / [rm, reg] theorems
             if shape == "larithi8" and f["operands"][0]["reg"] != "r8":
                 continue
             if shape == "larithimm" and f["operands"][0]["reg"] not in ("r16", "r32", "r64"):
